@@ -39,8 +39,7 @@ TABLE_OBLIGATIONS = [
 RULE = (
     "Cases are typed. proto: (url, protocol) -> ensure/force/strip_protocol and the PROTOCOL_RE match length; "
     "the fixed grid is 46 URL-ish strings (incl. '//x', '://x', 'a://b://c', 'localhost//a', '////x', '', 64/65-letter "
-    "schemes) x 26 protocol spellings ({http,https,ftp,wss,custom,upper case,1-letter,64- and 65-letter} x {'', ':', '://', "
-    "':/'}), all strings of length <= 5 (quick) / 6 (thorough) over {a,:,/} x 3 protocols, then seeded random URL-grammar "
+    "schemes) x 32 protocol spellings ({http,https,ftp,wss,custom,upper case,1-letter} x {'', ':', '://', ':/'} + 64- and 65-letter ones), all strings of length <= 5 (quick) / 6 (thorough) over {a,:,/} x 3 protocols, then seeded random URL-grammar "
     "and arbitrary short strings. fmt: format_url over 6 bases x 10 path forms x 4 fragments x 3 exts x 3 argument sets, "
     "every single (key,value) over 6 keys x 16 values as dict and as list, then random argument dicts/lists of 0-4 items; "
     "formatter: URLFormatter defaults x call parameters; aqa: add_query_argument + get_query_argument read-back over 14 "
@@ -50,7 +49,7 @@ RULE = (
     "existing query or fragment; path: at least one '/' inside. Distinct = distinct case."
 )
 EXHAUSTIVE = {
-    "quick": "proto: 46 fixed urls x 26 protocol spellings and all strings of length <= 5 over {a,:,/} x {http, ftp://, X:}; "
+    "quick": "proto: 46 fixed urls x 32 protocol spellings and all strings of length <= 5 over {a,:,/} x {http, ftp://, X:}; "
     "fmt: 6 bases x 10 paths x 4 fragments x 3 exts x 3 argument sets, and all single (key,value) of 6 keys x 16 values x {dict,list}; "
     "aqa: 14 urls x 7 keys x 12 values x quote=True",
     "thorough": "as quick, with all strings of length <= 6 over {a,:,/} and all ordered pairs of (key,value) items over 6 keys x 16 values as list",
@@ -268,7 +267,7 @@ def cases(rng, tier):
         yield {"k": "urlsplit", "url": u}
 
     # ---- seeded random
-    n = 600 if tier == "quick" else 12000
+    n = 4000 if tier == "quick" else 200000
     kf_budget = [6]
     for _ in range(n):
         r = rng.random()
@@ -296,6 +295,22 @@ def cases(rng, tier):
                 "fragment": rng.choice(FRAGS + [_rand_str(rng, "ab#?é ", 0, 4)]),
                 "ext": rng.choice(EXTS + ["..x", ""]),
             }
+        elif r < 0.69:
+            def _side(with_ext):
+                m = rng.randint(0, 3)
+                d = rng.random() < 0.75
+                items = [[_rand_key(rng), _rand_value(rng)] for _ in range(m)]
+                if d:
+                    items = [[k, v] for k, v in dict((k, v) for k, v in items).items()]
+                o = {"base": rng.choice([None] + BASES), "path": rng.choice(PATHS), "args": items if rng.random() < 0.7 else None,
+                     "dict": d, "fragment": rng.choice(FRAGS)}
+                if with_ext:
+                    o["ext"] = rng.choice(EXTS)
+                return o
+            s_, c_ = _side(False), _side(True)
+            if s_["base"] is None and c_["base"] is None:
+                c_["base"] = "http://a.com"
+            yield {"k": "formatter", "self": s_, "call": c_}
         elif r < 0.85:
             u = rng.choice(AQA_URLS) if rng.random() < 0.3 else _rand_url(rng)
             yield {"k": "aqa", "url": u, "name": _rand_key(rng), "value": _rand_value(rng), "quote": True}
